@@ -117,3 +117,105 @@ def module_classes(tree):
 
 def module_functions(tree):
     return {n.name: n for n in tree.body if isinstance(n, ast.FunctionDef)}
+
+
+# ---------------------------------------------------------------- rename recovery
+def normalised_source(fnode):
+    import copy
+    return ast.unparse(_Strip().visit(copy.deepcopy(fnode)))
+
+
+def local_names(fnode):
+    """names bound inside the function: parameters, assignment / loop / with / except / comprehension targets"""
+    out = set()
+    a = fnode.args
+    for x in a.args + a.kwonlyargs + a.posonlyargs + ([a.vararg] if a.vararg else []) + ([a.kwarg] if a.kwarg else []):
+        out.add(x.arg)
+    for n in ast.walk(fnode):
+        if isinstance(n, ast.Name) and isinstance(n.ctx, (ast.Store, ast.Del)):
+            out.add(n.id)
+        elif isinstance(n, ast.ExceptHandler) and n.name:
+            out.add(n.name)
+    for n in ast.walk(fnode):
+        if isinstance(n, (ast.Global, ast.Nonlocal)):
+            out -= set(n.names)
+    return out
+
+
+def alpha_renaming(new, old):
+    """{new local name: old local name} when `new` is `old` up to a consistent, injective renaming of local names
+    (parameters included), else None.  Everything else - structure, attribute names, constants, global and builtin
+    names, keyword names at call sites - has to be identical."""
+    import copy
+    new = _Strip().visit(copy.deepcopy(new))
+    old = _Strip().visit(copy.deepcopy(old))
+    ln, lo = local_names(new), local_names(old)
+    fwd, bwd = {}, {}
+
+    def bind(a, b):
+        if (a in ln) != (b in lo):
+            return False
+        if a not in ln:
+            return a == b
+        if fwd.setdefault(a, b) != b or bwd.setdefault(b, a) != a:
+            return False
+        return True
+
+    def same(x, y):
+        if type(x) is not type(y):
+            return False
+        if isinstance(x, ast.Name):
+            return bind(x.id, y.id)
+        if isinstance(x, ast.arg):
+            return bind(x.arg, y.arg)
+        if isinstance(x, ast.ExceptHandler):
+            if (x.name is None) != (y.name is None) or (x.name is not None and not bind(x.name, y.name)):
+                return False
+            return same(x.type, y.type) if x.type is not None or y.type is not None else True and same_list(x.body, y.body)
+        if isinstance(x, ast.AST):
+            for f in x._fields:
+                if f in ("ctx", "type_comment"):
+                    continue
+                if isinstance(x, ast.FunctionDef) and f == "name" and x is new:
+                    continue
+                if not same(getattr(x, f, None), getattr(y, f, None)):
+                    return False
+            return True
+        if isinstance(x, list):
+            return same_list(x, y)
+        return x == y
+
+    def same_list(xs, ys):
+        return len(xs) == len(ys) and all(same(a, b) for a, b in zip(xs, ys))
+
+    # keyword arguments at call sites inside the function that name a renamed parameter of *this* function do not exist
+    # (a function does not call itself by keyword here); keyword names are compared literally by same()
+    if not same(new, old):
+        return None
+    if isinstance(new, ast.FunctionDef) and new.name != old.name:
+        return None
+    return {a: b for a, b in fwd.items() if a != b}
+
+
+class _Rename(ast.NodeTransformer):
+    def __init__(self, mapping):
+        self.m = mapping
+
+    def visit_Name(self, node):
+        node.id = self.m.get(node.id, node.id)
+        return node
+
+    def visit_arg(self, node):
+        node.arg = self.m.get(node.arg, node.arg)
+        return node
+
+    def visit_ExceptHandler(self, node):
+        self.generic_visit(node)
+        if node.name:
+            node.name = self.m.get(node.name, node.name)
+        return node
+
+
+def rename_locals(fnode, mapping):
+    import copy
+    return ast.fix_missing_locations(_Rename(mapping).visit(copy.deepcopy(fnode)))
